@@ -21,6 +21,7 @@ def run(prop, modname, mods, kernels=False, c02_mods=(), note="", extra_assumpti
     mod = importlib.import_module(modname)
     lemma_args = [(modname, i) for i in range(len(mod.LEMMAS))]
     lres = C.pool_map(_lemma_worker, lemma_args)
+    lres, _ = C.rerun_unknown(_lemma_worker, lemma_args, lres)
     jobs = [(pk, n, sig, prop) for pk, n, m in ops.all_modules() if n in mods and (mods_pk(prop, pk, n, mods)) for sig in m.dispatch_map]
     if kernels:
         jobs += [("lorentz", "boost_beta3", "kernel", prop), ("lorentz", "boost_p4", "kernel", prop)]
@@ -28,6 +29,8 @@ def run(prop, modname, mods, kernels=False, c02_mods=(), note="", extra_assumpti
     # C02-form obligations (Cartesian variant == documented definition) for the listed modules, under this property's label
     c02 = [(pk, n, sig, "C02") for pk, n, m in ops.all_modules() if n in c02_mods and mods_pk(prop, pk, n, c02_mods) for sig in m.dispatch_map if is_cart(sig)]
     c02res = C.pool_map(enginea.run_variant_job, c02) if c02 else []
+    if c02:
+        c02res, _ = C.rerun_unknown(enginea.run_variant_job, c02, c02res)
     for r in c02res:
         r["id"] = r["id"].replace("C02/", f"{prop}/def:", 1)
         for o in r["obligations"]:
